@@ -16,6 +16,9 @@ pub fn str_witnesses() -> Vec<Vec<u8>> {
         vec![b'x'; 128],
         vec![b'x'; 255],
         vec![b'x'; 256],
+        b"0x1f40".to_vec(),
+        b"[1,2]".to_vec(),
+        b"null".to_vec(),
     ]
 }
 
@@ -52,6 +55,14 @@ pub fn atoms() -> Vec<Val> {
     v.push(Val::DateTime([0xff; 11]));
     v.push(Val::DateTime([1, 2, 3, 4, 5, 6, 7, 8, 9, 10, 11]));
     v.push(Val::DateTime([0x07, 0xe9, 12, 31, 23, 59, 58, 9, b'+', 13, 45]));
+    // every combination of UTC direction and zero / non-zero offset parts (a "-00:00" is not a "+00:00")
+    for dir in [b'+', b'-'] {
+        for h in [0u8, 1, 13] {
+            for m in [0u8, 30, 59] {
+                v.push(Val::DateTime([0x07, 0xea, 2, 28, 0, 0, 0, 0, dir, h, m]));
+            }
+        }
+    }
     for (a, b, c) in [(0, 0, 0i8), (1, 2, 3), (i32::MIN, i32::MAX, -128), (0x01020304, 0x05060708, 127)] {
         v.push(Val::Resolution(a, b, c));
     }
@@ -59,6 +70,13 @@ pub fn atoms() -> Vec<Val> {
     for t in unclaimed_tags() {
         for d in [vec![], vec![0u8], vec![0xff, 0x00, 0x80], vec![1, 2, 3, 4]] {
             v.push(Val::Unknown(t, d));
+        }
+    }
+    // raw octets that LOOK like an encoded form (hex literal, base64, JSON): a carrier that signals its encoding in
+    // band mistakes them for it
+    for t in [0x39u8, 0x3f] {
+        for d in ["0x1f40", "0x", "0X1F", "deadbeef", "AAAA", "QUJD", "[1,2]", "\"q\"", "null", "true", "{\"a\":1}", "\\x00", "%00", "b'x'"] {
+            v.push(Val::Unknown(t, d.as_bytes().to_vec()));
         }
     }
     v
